@@ -500,17 +500,34 @@ func (x *Exec) preamble() string {
 }
 
 func (x *Exec) query(o *Obligation, withModel bool) string {
+	return x.assemble(x.lines[:o.Prefix], o, withModel, true)
+}
+
+// assemble builds the SMT-LIB text of one obligation over the given context lines.
+func (x *Exec) assemble(lines []string, o *Obligation, withModel bool, inst bool) string {
 	var b strings.Builder
 	if withModel {
 		b.WriteString("(set-option :produce-models true)\n")
 	}
 	b.WriteString(x.preamble())
-	for _, l := range x.lines[:o.Prefix] {
+	for _, l := range lines {
 		b.WriteString(l)
 		b.WriteByte('\n')
 	}
+	b.WriteString(x.prog.lemmaInstances(lines, o.Goal))
+	var decls, extra []string
+	negGoal := sx("assert", not(o.Goal))
+	if inst {
+		decls, extra, negGoal = preInstantiate(lines, o.PC, o.Goal, 0)
+	}
+	for _, d := range decls {
+		b.WriteString(d + "\n")
+	}
+	for _, e := range extra {
+		b.WriteString(e + "\n")
+	}
 	b.WriteString(sx("assert", o.PC) + "\n")
-	b.WriteString(sx("assert", not(o.Goal)) + "\n")
+	b.WriteString(negGoal + "\n")
 	b.WriteString("(check-sat)\n")
 	if withModel && len(o.ModelTerms) > 0 {
 		b.WriteString("(get-value (" + strings.Join(o.ModelTerms, " ") + "))\n")
